@@ -283,6 +283,14 @@ class Slice:
                             through.append(t); work.append((a0.l, ap + (inner, ".0") + proj)); continue
                         if n == "map_err" and down(proj) == "Ok" and t.callee.matches(*self.pt):
                             through.append(t); work.append((a0.l, ap + proj)); continue
+                        # Option::zip(a, b) == Some((x, y)): element k of the pair is the payload of argument k
+                        if n == "zip" and "option::Option" in (t.callee.path + st) and len(t.args) == 2 and down(proj) == "Some" and len(proj) >= 3 and proj[1] == ".0" and proj[2] in (".0", ".1"):
+                            ak = t.args[int(proj[2][1:])]
+                            if ak.place is not None:
+                                through.append(t); work.append((ak.place.l, np(ak.place.p) + ("as Some", ".0") + proj[3:])); continue
+                        # Option::ok_or / ok_or_else: the Ok payload is the Some payload
+                        if n in ("ok_or", "ok_or_else") and "option::Option" in (t.callee.path + st) and down(proj) == "Ok":
+                            through.append(t); work.append((a0.l, ap + ("as Some",) + proj[1:])); continue
                     if not t.callee.indirect and t.callee.matches(*self.pt):
                         through.append(t)
                         for a in t.args:
